@@ -153,7 +153,7 @@ func c04Overlay(r *rand.Rand, docs []map[string]any, app bool) Case {
 // fluent.ConfigHelper: defaults, then overrides, then a file
 func c04Fluent(r *rand.Rand, idx int, docs []map[string]any) Case {
 	var fail []string
-	dir := filepath.Join(os.TempDir(), "ytcheck-c04")
+	dir := procTmp("c04")
 	_ = os.MkdirAll(dir, 0o755)
 	file := filepath.Join(dir, fmt.Sprintf("f%d.yaml", idx))
 	defer os.Remove(file)
